@@ -10,6 +10,7 @@ mod dump;
 mod gradual;
 mod lifecycle;
 mod modsrep;
+mod perfgrid;
 mod scoregen;
 mod session;
 mod settings;
@@ -34,6 +35,8 @@ fn main() {
         "attrs-replay" => attrs::main(rest),
         "dump-results" => dump::main(rest),
         "corner-replay" => corners::main(rest),
+        "perfgrid-replay" => perfgrid::main(rest),
+        "random-replay" => corners::random_main(rest),
         "bpm-replay" => session::bpm_main(rest),
         "session-record" => session::record_main(rest),
         "threads-record" => session::threads_main(rest),
